@@ -290,7 +290,10 @@ bus0_sock_send(void *arg, nni_aio *aio)
 
 	nni_mtx_lock(&s->mtx);
 
-	if (!nni_aio_start(aio, NULL, NULL)) {
+	// (BUS send never waits, so a poll -- zero timeout, as used for
+	// NNG_FLAG_NONBLOCK -- can always go ahead.)
+	if ((nni_aio_get_timeout(aio) != NNG_DURATION_ZERO) &&
+	    (!nni_aio_start(aio, NULL, NULL))) {
 		// the message stays with the caller
 		nni_mtx_unlock(&s->mtx);
 		return;
